@@ -258,9 +258,9 @@ for _nm in ("left_chain", "right_chain", "zigzag_lr", "zigzag_rl", "balanced"):
         **dict(SEQ, unwind=4, mem_gb=30, domain="concrete initial shape (all five 3-node shapes have a harness), query kind and key symbolic"))
 _seq("sp_i_iter", "quick", 100)
 for _nm in ("left_chain", "right_chain", "zigzag_lr", "zigzag_rl", "balanced"):
-    reg(f"sp_iter3_{_nm}", props={"C17": "quick" if _nm in ("zigzag_rl", "zigzag_lr") else "thorough"}, est_s=200, cap_s=1500,
+    reg(f"sp_iter3_{_nm}", props={"C17": "quick"}, est_s=20, cap_s=900,
         claim=f"3-node tree of shape {_nm}: consuming iteration in any mix of directions yields exactly the reference entries in order; size_hint; exhaustion",
-        **dict(SEQ, unwind=4, domain="concrete initial shape (all five 3-node shapes have a harness), direction of every pull symbolic"))
+        **dict(SEQ, unwind=5, domain="concrete initial shape (all five 3-node shapes have a harness) x six concrete direction patterns of three pulls (template run: shape and directions determined)"))
 reg("sp_getmut_index", props={"C17": "quick"}, est_s=200, cap_s=1200, claim="get_mut, Index and IndexMut after two inserts with arbitrary keys agree with the reference", **SEQ)
 reg("sp_extend", props={"C17": "quick"}, est_s=300, cap_s=1500, claim="extend (incl. duplicate keys, later pairs replace earlier ones) against the reference; BST shape", **dict(SEQ, unwind=4))
 reg("sp_clear", props={"C17": "quick"}, est_s=60, cap_s=900, claim="clear() of each of the five 3-node shapes empties the map and leaves it usable", **dict(SEQ, unwind=8, domain="five concrete 3-node shapes"))
@@ -321,7 +321,7 @@ QUICK = {
     "C15": ["evord_ll_f64", "evord_lr_f64", "evord_rr_f64", "segord_oracle_f32_n3"],
     "C16": ["int_classify_f32", "divide_contract_f64", "divide_ulp_f64", "divide_ulp_half_f64", "pi_none", "pi_point", "pi_ov_v6s"],
     "C17": ["sp_ii_get", "sp_ii_next", "sp_ii_prev", "sp_ii_minmax", "sp_ii_shape", "sp_i_iter", "sp_ir_get", "sp_ir_shape", "sp_getmut_index", "sp_extend", "sp_clear", "sp_set_insert_lookup", "sp_set_neighbours_remove",
-            "sp_refstab3_left_chain", "sp_refstab3_zigzag_lr", "sp_iter3_zigzag_rl", "sp_iter3_zigzag_lr",
+            "sp_refstab3_left_chain", "sp_refstab3_zigzag_lr", "sp_iter3_zigzag_rl", "sp_iter3_zigzag_lr", "sp_iter3_left_chain", "sp_iter3_right_chain", "sp_iter3_balanced",
             "sp_remove3_right_chain", "sp_remove3_zigzag_lr",
             ],
 }
